@@ -28,8 +28,8 @@ RULE = ('cases = generated source history (undo records, deletions, un-creations
 ASSUMPTIONS = ['blob sources are copied (mode blobcopy); fsrecover has no blob handling and is run on data files only',
                'a transaction overlapping the damaged region may be dropped or altered (don\'t care)',
                'termination is decided by a raw-read budget, never by time']
-BUDGET = {'quick': {'examples': 2000, 'workers': 8},
-          'thorough': {'examples': 15000, 'workers': 16}}
+BUDGET = {'quick': {'examples': 5000, 'workers': 8},
+          'thorough': {'examples': 30000, 'workers': 16}}
 CAPS_FS = programs.CAPS['fs']
 
 
